@@ -357,16 +357,22 @@ class Check:
         os.makedirs(os.path.join(OUT, "evidence"), exist_ok=True)
         with open(os.path.join(OUT, "evidence", self.pid + ".json"), "w") as f:
             json.dump(ev, f, indent=1)
-        for k in self.known:
-            print("KNOWN-FINDING: property=%s %s" % (self.pid, k))
+        lines = ["KNOWN-FINDING: property=%s %s" % (self.pid, k) for k in self.known]
         if real:
             # violations with a failing input first
             real.sort(key=lambda v: not v[2])
-            for what, path, found in real[:10]:
-                log("violation: " + what)
+            logs = ["violation: " + what for what, path, found in real[:10]]
             what, path, found = real[0]
-            print("VIOLATION property=%s replay=%s%s" % (self.pid, path, "" if found else " no-failing-input-found"))
+            lines.append("VIOLATION property=%s replay=%s%s" % (self.pid, path, "" if found else " no-failing-input-found"))
+            if not found and getattr(self, "defer_if_no_input", False):
+                # a proof obligation or the correspondence broke, but no input was found on which the property fails:
+                # the caller searches deeper (thorough-tier generators) before this verdict is printed
+                self.deferred = (lines, logs)
+                return 1
+            for l in logs: log(l)
+            for l in lines: print(l)
             return 1
+        for l in lines: print(l)
         print("OK property=%s tier=%s evaluations=%d obligations=%d/%d wall=%.1fs" % (
             self.pid, self.tier, cov["evaluations"], cov["discharged"], cov["obligations"], time.time() - self.t0))
         return 0
